@@ -43,6 +43,8 @@ type ddyn struct {
 	labels []dexpr
 	body   *dbody
 	custom bool // an explicit `iterator = name`
+	// the specification does not know the block type (a perturbation)
+	unknownType bool
 }
 
 type ditem struct {
@@ -297,6 +299,9 @@ type expander struct {
 	sawUnknown bool
 	sawMarked  bool
 	sawEmpty   bool
+	// a dynamic block of a type the specification does not know iterates over an empty collection: written
+	// out it is nothing at all, while the dynamic block itself is reported as an unsupported block type
+	sawEmptyUnknownType bool
 	nblocks    int
 }
 
@@ -359,6 +364,9 @@ func (x *expander) expand(b *dbody, env map[*iter]binding) *decgen.Body {
 			}
 			if coll.LengthInt() == 0 {
 				x.sawEmpty = true
+				if d.unknownType {
+					x.sawEmptyUnknownType = true
+				}
 			}
 			// iteration order: positions for tuples and lists, sorted keys for maps and objects, cty's set
 			// order for sets
